@@ -517,10 +517,10 @@ Proof.
   rewrite E1, E2. field. lra.
 Qed.
 
-(** positivity of the Jacobian on (-1,1) when smoothing <= 1 *)
-Theorem jac3_pos x : sm <= 1 -> -1 < x < 1 -> 0 < J x.
+(** lower bound of the Jacobian on (-1,1): J(x) > (1 - sm) (L/r) / (1 - x^2) *)
+Theorem jac3_lower x : -1 < x < 1 -> (1 - sm) * L / r / (1 - x^2) < J x.
 Proof.
-  intros Hsm1 Hx. destruct Hadm as (H1 & H2 & H3 & H4 & H5).
+  intros Hx. destruct Hadm as (H1 & H2 & H3 & H4 & H5).
   pose proof adm_aIn as HaI. pose proof adm_aOut as HaO.
   pose proof (a_of_step L r sm tIn H1 H2 H5 H3) as E1.
   pose proof (a_of_step L r sm tOut H1 H2 H5 H4) as E2.
@@ -533,7 +533,11 @@ Proof.
   { replace (2 * tOut - L / r) with ((2 * r * tOut - L) / r) by (field; lra).
     apply Rdiv_lt_0_compat; nra. }
   assert (HLr : 0 < L / r) by (apply Rdiv_lt_0_compat; lra).
-  unfold jac3. apply Rdiv_lt_0_compat; [|nra].
+  unfold jac3. unfold Rdiv at 1 5.
+  apply Rmult_lt_compat_r; [apply Rinv_0_lt_compat; nra|].
+  replace ((1 - sm) * L * / r) with ((1 - sm) * (L / r)) by (unfold Rdiv; ring).
+  replace ((1 - 2 * sm) * L / r) with ((1 - 2 * sm) * (L / r)) by (unfold Rdiv; ring).
+  replace (sm * L / r) with (sm * (L / r)) in E1, E2 by (unfold Rdiv; ring).
   (* p = (x+r)/S_in, q = (x-r)/S_out, both in (-1,1) and increasing in x *)
   pose proof (Sq_gt aIn (- r) HaI x) as G1. pose proof (Sq_pos aIn (- r) HaI x) as P1.
   pose proof (Sq_gt aOut r HaO x) as G2. pose proof (Sq_pos aOut r HaO x) as P2.
@@ -564,4 +568,137 @@ Proof.
     assert (0 < (2 * tIn - L / r) * (p0 - p)) by (apply Rmult_lt_0_compat; lra).
     nra.
 Qed.
+
+(** positivity of the Jacobian on (-1,1) when smoothing <= 1 *)
+Theorem jac3_pos x : sm <= 1 -> -1 < x < 1 -> 0 < J x.
+Proof.
+  intros Hsm1 Hx. pose proof (jac3_lower x Hx) as H.
+  destruct Hadm as (H1 & H2 & H3 & H4 & H5).
+  assert (0 < L / r) by (apply Rdiv_lt_0_compat; lra).
+  assert (0 <= (1 - sm) * L / r / (1 - x^2)).
+  { apply Rmult_le_pos; [|apply Rlt_le, Rinv_0_lt_compat; nra].
+    replace ((1 - sm) * L / r) with ((1 - sm) * (L / r)) by (unfold Rdiv; ring).
+    apply Rmult_le_pos; lra. }
+  lra.
+Qed.
 End Slope.
+
+(** ** Behaviour at the ends of the compact interval *)
+Lemma atanh_R_opp x : -1 < x < 1 -> atanh_R (- x) = - atanh_R x.
+Proof.
+  intro Hx. rewrite !atanh_R_inside by lra.
+  replace ((1 + - x) / (1 - - x)) with (/ ((1 + x) / (1 - x))) by (field; lra).
+  rewrite ln_Rinv by (apply Rdiv_lt_0_compat; lra). ring.
+Qed.
+
+Lemma atanh_R_0' : atanh_R 0 = 0.
+Proof.
+  rewrite atanh_R_inside by lra. replace ((1 + 0) / (1 - 0)) with 1 by field. rewrite ln_1. ring.
+Qed.
+
+(** atanh_R exceeds every bound close enough to 1 *)
+Lemma atanh_R_large B : exists d, 0 < d /\ forall x, 1 - d < x < 1 -> B < atanh_R x.
+Proof.
+  exists (Rmin (/ 2) (exp (- (2 * B)))). split.
+  - apply Rmin_glb_lt; [lra | apply exp_pos].
+  - intros x [H1 H2].
+    pose proof (Rmin_l (/ 2) (exp (- (2 * B)))). pose proof (Rmin_r (/ 2) (exp (- (2 * B)))).
+    assert (Hx : 0 < x) by lra.
+    rewrite atanh_R_inside by lra.
+    assert (Hlt : exp (2 * B) < (1 + x) / (1 - x)).
+    { apply Rlt_div_r; [lra|].
+      assert (E : exp (2 * B) * exp (- (2 * B)) = 1) by (rewrite <- exp_plus, Rplus_opp_r; apply exp_0).
+      pose proof (exp_pos (2 * B)). pose proof (exp_pos (- (2 * B))). nra. }
+    assert (2 * B < ln ((1 + x) / (1 - x))).
+    { rewrite <- (ln_exp (2 * B)). apply ln_increasing; [apply exp_pos | exact Hlt]. }
+    lra.
+Qed.
+
+Section Ends.
+Variables tIn tOut L r sm : R.
+Hypothesis Hadm : admissible tIn tOut L r sm.
+Hypothesis Hsm : sm < 1.
+Notation aIn := (a_of L r sm tIn).
+Notation aOut := (a_of L r sm tOut).
+Notation F := (map3 tIn tOut L r sm aIn aOut).
+Notation J := (jac3 tIn tOut L r sm aIn aOut).
+Let m := (1 - sm) * L / r.
+
+Lemma m_pos : 0 < m.
+Proof.
+  destruct Hadm as (H1 & H2 & H3 & H4 & H5). unfold m.
+  apply Rdiv_lt_0_compat; [apply Rmult_lt_0_compat|]; lra.
+Qed.
+
+Lemma r_nonzero : r <> 0.
+Proof. destruct Hadm as (_ & _ & _ & _ & H). lra. Qed.
+
+(** h = F - m atanh has a positive derivative on (-1,1) *)
+Lemma h_derive x : -1 < x < 1 ->
+  is_derive (fun t => F t - m * atanh_R t) x (J x - m / (1 - x^2)).
+Proof.
+  intro Hx.
+  pose proof (map3_derive tIn tOut L r sm aIn aOut (adm_aIn _ _ _ _ _ Hadm)
+                (adm_aOut _ _ _ _ _ Hadm) r_nonzero x Hx) as H.
+  pose proof (is_derive_atanh_R_inside x Hx) as Ha.
+  auto_derive.
+  - split; [eexists; exact H | split; [eexists; exact Ha | exact I]].
+  - rewrite (is_derive_unique (fun x0 : R => F x0) x _ H).
+    rewrite (is_derive_unique (fun x0 : R => atanh_R x0) x _ Ha). field. nra.
+Qed.
+
+Lemma h_cont x : -1 < x < 1 -> continuity_pt (fun t => F t - m * atanh_R t) x.
+Proof.
+  intro Hx. apply continuity_pt_filterlim.
+  apply (ex_derive_continuous (fun t => F t - m * atanh_R t) x). eexists. apply h_derive; exact Hx.
+Qed.
+
+(** the map grows at least like m atanh on both sides of the centre *)
+Lemma map3_above x : 0 <= x < 1 -> F 0 + m * atanh_R x <= F x.
+Proof.
+  intros [H0 H1]. destruct (Req_dec x 0) as [->|Hne]; [rewrite atanh_R_0'; lra|].
+  destruct (MVT_gen (fun t => F t - m * atanh_R t) 0 x (fun t => J t - m / (1 - t^2))) as [c [Hc Heq]].
+  - intros t Ht. rewrite Rmin_left, Rmax_right in Ht by lra. apply h_derive. lra.
+  - intros t Ht. rewrite Rmin_left, Rmax_right in Ht by lra. apply h_cont. lra.
+  - rewrite Rmin_left, Rmax_right in Hc by lra.
+    assert (Hc' : -1 < c < 1) by lra.
+    pose proof (jac3_lower tIn tOut L r sm Hadm c Hc') as Hl. fold m in Hl.
+    rewrite atanh_R_0' in Heq. nra.
+Qed.
+
+Lemma map3_below x : -1 < x <= 0 -> F x <= F 0 + m * atanh_R x.
+Proof.
+  intros [H0 H1]. destruct (Req_dec x 0) as [->|Hne]; [rewrite atanh_R_0'; lra|].
+  destruct (MVT_gen (fun t => F t - m * atanh_R t) x 0 (fun t => J t - m / (1 - t^2))) as [c [Hc Heq]].
+  - intros t Ht. rewrite Rmin_left, Rmax_right in Ht by lra. apply h_derive. lra.
+  - intros t Ht. rewrite Rmin_left, Rmax_right in Ht by lra. apply h_cont. lra.
+  - rewrite Rmin_left, Rmax_right in Hc by lra.
+    assert (Hc' : -1 < c < 1) by lra.
+    pose proof (jac3_lower tIn tOut L r sm Hadm c Hc') as Hl. fold m in Hl.
+    rewrite atanh_R_0' in Heq. nra.
+Qed.
+
+(** the position map is unbounded above towards chi = 1 and below towards chi = -1, so (being
+    continuous and increasing) it maps (-1,1) ONTO the real line *)
+Theorem map3_ends (c B : R) :
+  (exists d, 0 < d /\ forall x, 1 - d < x < 1 -> B < F x - F 0 + c) /\
+  (exists d, 0 < d /\ forall x, -1 < x < -1 + d -> F x - F 0 + c < B).
+Proof.
+  pose proof m_pos as Hm. split.
+  - destruct (atanh_R_large ((B - c) / m)) as [d [Hd H]].
+    exists (Rmin d 1). split; [apply Rmin_glb_lt; lra|]. intros x [Hx1 Hx2].
+    pose proof (Rmin_l d 1). pose proof (Rmin_r d 1).
+    assert (Hb : (B - c) / m < atanh_R x) by (apply H; lra).
+    pose proof (map3_above x ltac:(lra)).
+    assert ((B - c) / m * m < atanh_R x * m) by (apply Rmult_lt_compat_r; lra).
+    replace ((B - c) / m * m) with (B - c) in * by (field; lra). lra.
+  - destruct (atanh_R_large ((c - B) / m)) as [d [Hd H]].
+    exists (Rmin d 1). split; [apply Rmin_glb_lt; lra|]. intros x [Hx1 Hx2].
+    pose proof (Rmin_l d 1). pose proof (Rmin_r d 1).
+    assert (Hb : (c - B) / m < atanh_R (- x)) by (apply H; lra).
+    rewrite atanh_R_opp in Hb by lra.
+    pose proof (map3_below x ltac:(lra)).
+    assert ((c - B) / m * m < - atanh_R x * m) by (apply Rmult_lt_compat_r; lra).
+    replace ((c - B) / m * m) with (c - B) in * by (field; lra). lra.
+Qed.
+End Ends.
